@@ -52,6 +52,12 @@ def upper_layers(variant):
 
 def make_stanza(variant, kind, ident, size):
     pad = ("x" * size)
+    if kind == "bad":
+        # a stanza the codec refuses (an attribute without a value): its sender is told so; it is no business of the other senders
+        if variant in ("core", "bare"):
+            return ProtocolTreeNode("receipt", {"id": ident, "to": None})
+        from yowsup.layers.protocol_receipts.protocolentities import OutgoingReceiptProtocolEntity as _R
+        return _R(ident, None)
     if variant in ("core", "bare"):
         if kind == "iq":
             return ProtocolTreeNode("iq", {"id": ident, "type": "get", "xmlns": "w:p", "pad": pad})
@@ -527,6 +533,18 @@ def _run(case, out, rig, variant, ping):
             got.append(ident)
         elif t[0] == "iq":
             pings += 1
+    bad_ids = set("s%d-%d" % (ti, k) for ti, prog in enumerate(case["tasks"]) for k, (kind, size) in enumerate(prog) if kind == "bad")
+    if bad_ids:
+        out.label("a_sender_hands_down_an_unencodable_stanza")
+        wrongly = sorted(i for i in bad_ids if results.get(i) == "ok")
+        if wrongly:
+            out.fail("delivery", "delivery:unencodable_stanza_reported_as_sent", {"ids": wrongly})
+            return out
+        struck = sorted(i for i, r in results.items() if i not in bad_ids and r in ("raised:RuntimeError", "raised:AttributeError"))
+        if struck:
+            # (a send that comes too early is refused with the session's own error; these are the errors of somebody else's stanza)
+            out.fail("delivery", "delivery:good_stanza_fails_with_the_error_of_another_senders_stanza", {"results": results})
+            return out
     expected = sorted(i for i, r in results.items() if r == "ok")
     if sorted(got) != expected:
         out.fail("delivery", "delivery:transmitted_set_differs", {"at_server": sorted(got), "sent_ok": expected, "results": results})
@@ -579,7 +597,7 @@ def shrink_candidates(case):
 
 
 def case_strategy(tier):
-    op = st.tuples(st.sampled_from(["iq", "receipt", "presence", "message"]),
+    op = st.tuples(st.sampled_from(["iq", "receipt", "presence", "message"] * 3 + ["bad"]),
                    st.sampled_from([1, 1, 10, 200, 256, 300, 3000])).map(list)
     prog = st.lists(op, min_size=1, max_size=4)
 
@@ -607,6 +625,15 @@ def case_strategy(tier):
             case["preempt"] = draw(st.lists(st.tuples(st.integers(0, 700), st.integers(0, 4)).map(list), min_size=1, max_size=4))
         return case
     return build()
+
+
+def _enum_bad_stanza_sweep():
+    """one sender's stanza is refused by the codec while two others are sending: every single preemption point"""
+    for variant in ("core", "bare"):
+        for step in range(0, 500, 3):
+            for to in (1, 2):
+                yield {"sub": "senders", "variant": variant, "tasks": [[["bad", 1], ["iq", 1]], [["message", 300], ["receipt", 1]], [["message", 200], ["iq", 1]]],
+                       "ping": False, "start_round": 2, "choices": [], "preempt": [[step, to], [step + 40, 0]]}
 
 
 def _enum_basic():
@@ -743,7 +770,8 @@ def plan(tier):
         "enumerations": [("basic", _enum_basic), ("login_preemption_sweep", _enum_login_preemption_sweep),
                          ("first_send_line_sweep", _enum_first_send_line_sweep), ("reconnect_preemption_sweep", _enum_reconnect_preemption_sweep), ("stalled_writes", _enum_stalled_writes),
                          ("dispatcher_writes_basic", _enum_dispatcher_writes),
-                         ("dispatcher_race_sweep", _enum_dispatcher_race), ("reconnect_writes_basic", _enum_reconnect_writes)],
+                         ("dispatcher_race_sweep", _enum_dispatcher_race), ("reconnect_writes_basic", _enum_reconnect_writes),
+                         ("unencodable_stanza_among_senders_sweep", _enum_bad_stanza_sweep)],
         "exhaustive": ["login_preemption_sweep", "first_send_line_sweep"],
         "strategies": [("schedules", case_strategy(tier), 150 if quick else 10000),
                        ("first_send_line_schedules", first_send_strategy(), 60 if quick else 3000),
@@ -755,3 +783,4 @@ def plan(tier):
     }
 
 RULE += (' Also: senders running into a reconnect after an earlier connection (with a complete single-preemption sweep), one write of the traffic blocking for 20 virtual seconds (bounded lock waits are modelled against the virtual clock), the real dispatcher classes over a socket double (short writes, would-block, a write interrupted half way, reconnects with output pending).')
+RULE += (" Senders may hand down a stanza the codec refuses (kind bad): it is reported to its sender only, the other senders' stanzas are unaffected; a sweep over single preemption points with such a sender among three.")
